@@ -173,7 +173,7 @@ fn check_map(l: &mut vh::Local<'_>, cfg: vh::gen::ModeCfg, spec: &vh::gen::MapSp
 
 fn main() {
     let ctx = Ctx::from_env("C16");
-    ctx.rule("case = (mode configuration, grammar map with gaps {150,400,1000,7000} and first start in {-500,0,400,1000}; plus three maps per mode configuration that check_suspicion flags: objects a day apart, 120 objects 5 ms apart, 260 objects 3 ms apart); per case: settings menu x every passed_objects prefix; oracle = peaks finite and >= 0; all skills of the mode have the same number of sections; at clock rate 1 the section count equals an independent count from the object times (osu!, taiko, mania); re-aggregation (drop zeros, sort descending, sum p_i*w^i with w=0.94 catch / 0.9 mania; plain sum for flashlight, then TD/RX/AP factors) reproduces stars (catch, mania) and flashlight (osu!) within relative 1e-9; non-trivial = at least one positive peak");
+    ctx.rule("case = (mode configuration, grammar map with gaps {150,400,1000,7000} and first start in {-500,0,400,1000}; plus maps of <= 3/4 objects at gaps {0, 10, 150} ms stacked and apart under no mod and FL+DT, and three maps per mode configuration that check_suspicion flags: objects a day apart, 120 objects 5 ms apart, 260 objects 3 ms apart); per case: settings menu x every passed_objects prefix; oracle = peaks finite and >= 0; all skills of the mode have the same number of sections; at clock rate 1 the section count equals an independent count from the object times (osu!, taiko, mania); re-aggregation (drop zeros, sort descending, sum p_i*w^i with w=0.94 catch / 0.9 mania; plain sum for flashlight, then TD/RX/AP factors) reproduces stars (catch, mania) and flashlight (osu!) within relative 1e-9; non-trivial = at least one positive peak");
 
     // periodic longer maps first
     {
@@ -219,6 +219,21 @@ fn main() {
             // (mania tolerates 200 objects per second: its 120-object stream is not flagged and is simply one more dense map)
             check_map(l, cfg, &spec, &map, &menu);
         });
+    }
+    // objects at the same time and 10 ms apart (closer than the 25 ms floor that time differences get inside the skills),
+    // stacked and far apart, under no mod and Flashlight
+    {
+        let menu = vec![Setting::nm(), Setting::bits(settings::FL | settings::DT)];
+        for cfg in vh::gen::MODE_CFGS.iter().filter(|c| c.src != 3) {
+            let alpha = gen::Alphabet::product(&[gen::Kind::Circle, gen::Kind::Slider2], &[0, 10, 150], &[gen::PosK::Same, gen::PosK::Far], &[0], &[0]);
+            let n = ctx.pick(3u32, 4);
+            let skip = alpha.count_upto(1);
+            ctx.universe(&format!("near-simultaneous/{}to{}/N<={n}/|A|={}", cfg.src, cfg.dst, alpha.len()), alpha.count_upto(n) - skip, |idx, l| {
+                let spec = gen::MapSpec::new(cfg.src, alpha.seq(idx + skip, n));
+                let map = spec.decode();
+                check_map(l, *cfg, &spec, &map, &menu);
+            });
+        }
     }
     let n_max = ctx.pick(3, 4);
     for first_start in [1000, -500, 0, 400] {
